@@ -19,7 +19,8 @@ import numpy as np
 
 from ..contracts import attach, detach_all, quiet
 from ..core import REPO, max_err
-from ..polyhard import cfg32, clear_caches, warm32, layouts, is_c_contig, contig, order_containers, coef_containers
+from ..polyhard import (cfg32, clear_caches, warm32, layouts, is_c_contig, contig, order_containers, coef_containers, foreign_traffic, high_orders, coord_forms,
+                        more_order_containers, term_containers, form_class, ORDER_FORMS, NM_FORMS, N_ONLY_FORMS, PARAM_FORMS, INT_PARAM_FORMS, SEQ_INT_COORDS, INT_HERMITE_MAX_ORDER)
 from ..refmodels import diffops_poly as D
 from ..util import precision
 
@@ -35,7 +36,14 @@ RULE = ('one case = one call of a derivative routine for one (function, order/co
         'clenshaw_q2d(_der) and compute_z_zprime_Q2d in turn, every slope judged against the derivative of the explicit sum with the PRISTINE '
         'coefficients; one coordinate object shared by consecutive *_der / *_der_seq / zernike_nm_der calls; earlier results must survive); memory '
         'layouts of coordinates; containers of order lists and coefficient vectors; config.precision = 32 (orders <= 8, <= 12 coefficients); orders '
-        '18, 19, 41, 60 and sums of 19 / 41 / 42 coefficients in the quick tier too')
+        '18, 19, 41, 60 and sums of 19 / 41 / 42 coefficients in the quick tier too. Hardening pass 2: class D in the quick tier - *_der / *_der_seq at orders 171, 172, 200, 256, 400 '
+        '(Hermite: 100); class E - evaluation points as python ints -1, 0, 1, int64 / int32 ndarrays (1-D, 2-D, 0-D), numpy int64 scalars, bool, python float / complex, complex128 / '
+        'complex64 ndarrays for every *_der (oracle: the differentiated interpolant of the REAL samples of the value routine evaluated at the possibly complex point), complex and - where '
+        'listed - integer coordinates for *_der_seq (plus sequence == single), integer-typed radius for zernike_nm_der (n > |m|), integer heights for the conic sag derivatives; n as '
+        'int64 / int32 / uint32 / uint64 / intp and in every accepted list container, (n, m) as numpy integers (unsigned for n only), j as numpy integers and omitted vs explicit, norm '
+        'omitted vs explicit after the other explicit value; alpha, beta as numpy float64 / float32 / python int / numpy int64 incl. the lines alpha + beta = -1, 0 with alpha != beta for '
+        'jacobi_der(_seq) and jacobi_sum_clenshaw_der; scalar coordinates (python float, numpy float64, 0-d) for the Clenshaw routines and evaluators; class F - every derivative routine '
+        'judged after unmonitored traffic through the shared tables from the value / fast-sum / change-of-basis / fit routines')
 ASSUMPTIONS = ['the value routines are what is being differentiated (their own correctness is C07/C10)',
                'Chebyshev interpolation at >= degree+3 nodes is exact for polynomials; trigonometric interpolation at '
                '> 2*degree nodes is exact for trigonometric polynomials; complex step is exact to round-off for analytic f',
@@ -46,12 +54,16 @@ ASSUMPTIONS = ['the value routines are what is being differentiated (their own c
                'the Chebyshev interpolation interval always contains the evaluation points (first-kind nodes never touch the end points, so the prefixes '
                'x(1-x) and u^m can be divided out on [0, 1])',
                'integer-typed coefficient arrays are excluded and counted here (their value defect is recorded under C10)',
+               'argument forms (class E): the accepted forms are DATA established on /repo @ faa8443 (vp/polyhard.py): integer ndarray coordinates of the Clenshaw routines / sag-and-slope '
+               'evaluators / most *_der_seq (work arrays are allocated in the coordinate dtype), zernike_nm_der at an integer radius with n == |m| (raises today), unsigned m, 0-d array orders '
+               'are out of domain; the derivative at a complex point is the derivative of the polynomial\'s analytic continuation',
                'emptying prysm\'s memo tables (functools cache_clear, where a helper offers it) never changes what a correct library returns']
 REQUIRED = ['alias.result-stable', 'der1d', 'der_seq', 'zernike_nm_der.dr', 'zernike_nm_der.dt', 'zernike_nm_der_seq',
             'jacobi_sum_clenshaw_der.rows', 'clenshaw_qbfs_der.rows', 'clenshaw_q2d_der.rows',
             'compute_z_zprime_Qbfs.slope', 'compute_z_zprime_Qcon.slope', 'compute_z_zprime_Q2d.dr',
             'compute_z_zprime_Q2d.dt', 'surfaces.sag_der', 'der_direction_cosine_spheroid',
-            'off_axis_conic_der', 'off_axis_conic_sigma_der', 'Q2d_and_der.dr', 'Q2d_and_der.dt', 'Surface.normal']
+            'off_axis_conic_der', 'off_axis_conic_sigma_der', 'Q2d_and_der.dr', 'Q2d_and_der.dt', 'Surface.normal',
+            'classD.very-high-orders', 'classE.argument-forms', 'classF.foreign-traffic']
 
 CTX = None
 TOL = 1e-8
@@ -120,7 +132,7 @@ def sup(a):
 
 
 def judge(monitor, got, ref, unc, key, what, desc, refsup=0.0, fsup=0.0, dscale=1.0, rtol=TOL, inner=False,
-          blamed=False, recheck=None, coords=(), **detail):
+          blamed=False, recheck=None, coords=(), form=None, canonical=None, **detail):
     """|got-ref| <= rtol*sup|ref| + 1e-10*fsup*dscale, provided the oracle's own uncertainty is 100x smaller."""
     ctx = CTX
     ref = np.asarray(ref)
@@ -148,6 +160,15 @@ def judge(monitor, got, ref, unc, key, what, desc, refsup=0.0, fsup=0.0, dscale=
     mech = mechanism(recheck, coords)
     if mech:
         key = key + '/' + mech
+    elif form and canonical is not None:
+        # class E attribution: right for the canonical form of the same input -> the defect is specific to this argument form
+        try:
+            with quiet(), np.errstate(all='ignore'):
+                g2 = canonical()            # the result for the canonical form (None: the canonical form has been judged right by the caller's own oracle)
+                if g2 is None or (np.shape(g2) == ref.shape and max_err(np.asarray(g2), ref) <= tol):
+                    key = key + '/form:' + form
+        except Exception:  # noqa
+            pass
     ctx.violation(key, what, desc, err=err, tol=tol, scale=scale, **detail)
     if inner:
         BLAME[0] += 1
@@ -288,12 +309,34 @@ def interval_for(x, lo, hi):
 
 
 # ------------------------------------------------------------------------------------------ contracts
+def pyint_as_float(x):
+    """The coordinate of a Clenshaw routine as an ndarray; a PYTHON int (accepted today: the work arrays are then allocated in config.precision) is the
+    same point as the float.  Integer ndarrays stay integer-typed (out of domain: the work arrays are allocated in the coordinate dtype)."""
+    if isinstance(x, int) and not isinstance(x, bool):
+        return np.asarray(float(x))
+    return np.asarray(x)
+
+
+def table_shape_ok(fn, res, j, n, x, desc):
+    """The documented result of a Clenshaw derivative routine is the table alphas of shape (j + 1, len(coefficients), *x.shape): row jj holds the sums
+    of the jj-th derivative.  A table with another number of rows means another derivative order than the one requested (e.g. an omitted j that does not
+    resolve to the documented default 1) was computed."""
+    want = (j + 1, n) + tuple(np.shape(x))
+    if res.shape == want:
+        return True
+    CTX.observe(fn + '.rows')
+    CTX.violation(f'C09/{fn}/table-shape', f'{fn}: the returned table has shape {res.shape}, documented (j + 1, len(coefficients), *x.shape) = {want} for the requested derivative order j = {j}',
+                  desc, got_shape=list(res.shape), want_shape=list(want))
+    BLAME[0] += 1
+    return False
+
+
 def post_jacobi_sum_clenshaw_der(token, args, kwargs, result):
     from prysm.polynomials import jacobi
     a = bind(['s', 'alpha', 'beta', 'x', 'j', 'alphas'], args, kwargs, {'j': 1})
     s = [float(v) for v in a['s']]
     al, be, j = a['alpha'], a['beta'], int(a['j'])
-    x = np.asarray(a['x'])
+    x = pyint_as_float(a['x'])
     if x.dtype.kind != 'f' or j < 1 or len(s) == 0:
         return
     n = len(s)
@@ -311,6 +354,8 @@ def post_jacobi_sum_clenshaw_der(token, args, kwargs, result):
         return sum(c * jacobi(k, al, be, nodes) for k, c in enumerate(s))
 
     res = np.asarray(result)
+    if not table_shape_ok('jacobi_sum_clenshaw_der', res, j, n, a['x'], desc):
+        return
     for jj in range(0, j + 1):
         got = res[jj][0]
         ref, unc, refsup, fsup = spectral(sample, lo, hi, x, k=jj, K=n + 4)
@@ -329,7 +374,7 @@ def post_clenshaw_qbfs_der(token, args, kwargs, result):
     a = bind(['cs', 'usq', 'j', 'alphas'], args, kwargs, {'j': 1})
     cs = [float(v) for v in a['cs']]
     j = int(a['j'])
-    x = np.asarray(a['usq'])
+    x = pyint_as_float(a['usq'])
     if x.dtype.kind != 'f' or j < 1 or len(cs) == 0:
         return
     if getattr(a['cs'], 'dtype', None) is not None and a['cs'].dtype.kind in 'iub':
@@ -353,6 +398,8 @@ def post_clenshaw_qbfs_der(token, args, kwargs, result):
         return sum(c * Qbfs(k, u) for k, c in enumerate(cs)) / (nodes * (1 - nodes))
 
     res = np.asarray(result)
+    if not table_shape_ok('clenshaw_qbfs_der', res, j, n, a['usq'], desc):
+        return
     for jj in range(0, j + 1):
         got = 2 * (res[jj][0] + (res[jj][1] if n > 1 else 0))
         ref, unc, refsup, fsup = spectral(sample, lo, hi, x, k=jj, K=n + 4)
@@ -372,7 +419,7 @@ def post_clenshaw_q2d_der(token, args, kwargs, result):
     a = bind(['cns', 'm', 'usq', 'j', 'alphas'], args, kwargs, {'j': 1})
     cs = [float(v) for v in a['cns']]
     m, j = int(a['m']), int(a['j'])
-    x = np.asarray(a['usq'])
+    x = pyint_as_float(a['usq'])
     if x.dtype.kind != 'f' or j < 1 or len(cs) == 0 or m < 1:
         return
     if getattr(a['cns'], 'dtype', None) is not None and a['cns'].dtype.kind in 'iub':
@@ -395,6 +442,8 @@ def post_clenshaw_q2d_der(token, args, kwargs, result):
         return sum(c * Q2d(k, m, u, t) for k, c in enumerate(cs)) / u ** m
 
     res = np.asarray(result)
+    if not table_shape_ok('clenshaw_q2d_der', res, j, n, a['usq'], desc):
+        return
     for jj in range(0, j + 1):
         got = 0.5 * res[jj][0]
         if m == 1 and n - 1 > 2:
@@ -1064,12 +1113,34 @@ def hist_orders(variant, top=41):
     return [min(v, top) for v in o]
 
 
-def der_check(name, val, der, n, x, x0, lo, hi, desc, f32=False, hist=None):
-    """der(n, x) (x: the object handed to the routine) against d/dx of val(n, .) at the PRISTINE coordinate values x0."""
+def spectral_at(sample, lo, hi, z, k=1, K=8, extra=4):
+    """spectral() for evaluation points that may be complex: the interpolant of the REAL samples is the polynomial itself (exact for degree < K), so
+    its differentiated Chebyshev series evaluated at a complex point is the derivative of the polynomial's analytic continuation there."""
+    z = np.asarray(z)
+    if z.dtype.kind != 'c':
+        return spectral(sample, lo, hi, z.astype(float), k, K, extra)
+    from numpy.polynomial import chebyshev as C
+    out = []
+    for kk in (K, K + extra):
+        a = D.Cheb(lo, hi, kk)
+        va = np.asarray(sample(a.nodes), dtype=float)
+        co = a.coefs(va)
+        if k:
+            co = C.chebder(co, m=k, scl=2.0 / (hi - lo), axis=0) if k < kk else np.zeros((1,) + co.shape[1:])
+        s_ = (z - lo) * (2.0 / (hi - lo)) - 1.0
+        out.append((C.chebval(s_, co), co, va))
+    db, cb, vb = out[1]
+    grid = np.linspace(-0.9, 0.9, 9)
+    refsup = max(sup(C.chebval(grid, cb)), sup(db))
+    return db, np.abs(db - out[0][0]), refsup, sup(vb)
+
+
+def der_check(name, val, der, n, x, x0, lo, hi, desc, f32=False, hist=None, form=None, canonical=None, keyname=None):
+    """der(n, x) (x: the object handed to the routine) against d/dx of val(n, .) at the PRISTINE coordinate values x0 (float or complex)."""
     def once(xx):
         got = der(n, xx)
         with quiet():
-            ref, unc, refsup, fsup = spectral(lambda nodes: val(n, nodes), lo, hi, np.asarray(x0, dtype=float), 1, n + 4)
+            ref, unc, refsup, fsup = spectral_at(lambda nodes: val(n, nodes), lo, hi, np.asarray(x0), 1, int(n) + 4)
         return got, ref, unc, refsup, fsup
     got, ref, unc, refsup, fsup = once(x)
 
@@ -1077,12 +1148,12 @@ def der_check(name, val, der, n, x, x0, lo, hi, desc, f32=False, hist=None):
         g2, r2, u2, rs2, fs2 = once(x if tr is None else tr(x))
         g2, r2 = np.asarray(g2, dtype=float), np.asarray(r2)
         return g2.shape == r2.shape and max_err(g2, r2) <= 10 * ((TOL32 if f32 else TOL) * max(rs2, sup(r2)) + 1e-10 * fs2 * 2 / (hi - lo))
-    key = f'C09/{name}_der/{"n=0" if n == 0 else "n>=1"}' + ('/f32' if f32 else '')
+    key = f'C09/{name}_der/{keyname or ("n=0" if n == 0 else "n>=1")}' + ('/f32' if f32 else '')
     return judge('der1d', got, ref, unc, key, f'{name}_der(n) is not d/dx of {name}(n)', desc, refsup=refsup, fsup=fsup, dscale=2 / (hi - lo),
-                 rtol=TOL32 if f32 else TOL, recheck=recheck, coords=[x])
+                 rtol=TOL32 if f32 else TOL, recheck=recheck, coords=[x] if isinstance(x, np.ndarray) else [], form=form, canonical=canonical)
 
 
-def der_seq_check(name, val, dseq, ns, cont, x, x0, lo, hi, desc, f32=False):
+def der_seq_check(name, val, dseq, ns, cont, x, x0, lo, hi, desc, f32=False, form=None, canonical=None, keyname=None, reusable=True):
     got = np.asarray(dseq(cont, x))
     want = (len(ns),) + np.shape(x0)
     CTX.observe('der_seq')
@@ -1091,14 +1162,15 @@ def der_seq_check(name, val, dseq, ns, cont, x, x0, lo, hi, desc, f32=False):
         return
     for row, n in enumerate(ns):
         with quiet():
-            ref, unc, refsup, fsup = spectral(lambda nodes: val(n, nodes), lo, hi, np.asarray(x0, dtype=float), 1, n + 4)
+            ref, unc, refsup, fsup = spectral_at(lambda nodes: val(n, nodes), lo, hi, np.asarray(x0), 1, n + 4)
 
         def recheck(tr, row=row, ref=ref, refsup=refsup, fsup=fsup):
-            g2 = np.asarray(dseq(cont, x if tr is None else tr(x)), dtype=float)
+            g2 = np.asarray(dseq(cont, x if tr is None else tr(x)))
             return g2.shape == want and max_err(g2[row], ref) <= 10 * ((TOL32 if f32 else TOL) * max(refsup, sup(ref)) + 1e-10 * fsup * 2 / (hi - lo))
-        judge('der_seq', got[row], ref, unc, f'C09/{name}_der_seq/{"n=0" if n == 0 else "n>=1"}' + ('/f32' if f32 else ''),
+        judge('der_seq', got[row], ref, unc, f'C09/{name}_der_seq/{keyname or ("n=0" if n == 0 else "n>=1")}' + ('/f32' if f32 else ''),
               f'{name}_der_seq row for order n is not d/dx of {name}(n)', desc, refsup=refsup, fsup=fsup, dscale=2 / (hi - lo), row=row, n=n,
-              rtol=TOL32 if f32 else TOL, recheck=recheck, coords=[x])
+              rtol=TOL32 if f32 else TOL, recheck=recheck if reusable else None, coords=[x], form=form,
+              canonical=(lambda row=row: np.asarray(canonical())[row]) if canonical is not None else None)
 
 
 def fam_table():
@@ -1571,6 +1643,361 @@ def high_order_units(ctx, part, nparts):
                 judge('zernike_nm_der.dt', dt, rt_, ut, f'C09/zernike_nm_der/dt/{mclass(m)}', 'zernike_nm_der: dZ/dt is not the azimuthal derivative of zernike_nm', desc, refsup=ts, fsup=fs2, dscale=1.0)
 
 
+# ------------------------------------------------------------------------------------------ hardening pass 2 (HARDENING2.md D in the quick tier, E, F)
+def fixed_params(name, plist, k=0):
+    pv = plist[k % len(plist)]
+    return ((0.3, -0.3) if name == 'jacobi' else 0.5) if pv == 'rand' else pv
+
+
+def coord_form_units(ctx):
+    """Class E, forms of the evaluation points of every derivative routine: python ints -1, 0, 1 (each alone), int64 / int32 ndarrays (1-D, 2-D, 0-D),
+    numpy int64 scalars, bool ndarrays, python float, python complex, complex128 ndarrays (1-D, 2-D, 0-D, real-valued), complex64 (single-precision
+    class) - the result must be the derivative of the value routine at the SAME points given as float64 / complex128 (spectral oracle: the
+    differentiated interpolant of the real samples, evaluated at the possibly complex point).  Sequence forms: complex coordinates for every family,
+    integer ones where the class E table lists the routine; in addition sequence == single on the same coordinates."""
+    from prysm import polynomials as p
+    from prysm.x.raytracing import surfaces as S
+    from prysm.polynomials import zernike_nm, zernike_nm_der
+    for name, plist, make, lo, hi, seq2d in families():
+        pv = fixed_params(name, plist)
+        val, der, dseq = make(pv)
+        for lab, kind, xv, xf in coord_forms(lo, hi):
+            orders = CTX.pick((0, 1, 2, 3, 5, 8), tuple(range(10))) + (CTX.pick((12, 19), (12, 15, 19, 25, 40)) if (kind != 'c' and not (name.startswith('hermite') and kind in 'ib')) else CTX.pick((), (10, 12)))
+            if lab == 'complex64-1d':
+                orders = (0, 1, 2, 3, 5)
+            for n in orders:
+                desc = {'fn': name + '_der', 'n': n, 'params': pv, 'x': lab, 'class': f'{name}_der:x-as-{lab.split(":")[0]}'}
+                ctx.case(desc)
+                ctx.observe('classE.argument-forms')
+                with guard(name + '_der', desc, lenlabel='n=0' if n == 0 else 'n>=1'):
+                    def canonical(n=n, xf=xf, kind=kind):
+                        # the same points as float64 (integer forms) / their real parts (complex forms): right there -> the defect is specific to the coordinate form
+                        if kind != 'c':
+                            return der(n, np.asarray(xf, dtype=float))
+                        xr = np.ascontiguousarray(np.asarray(xf).real, dtype=float)
+                        r_, u_, rs_, fs_ = spectral(lambda nodes: val(n, nodes), lo, hi, xr, 1, n + 4)
+                        ok = max_err(np.asarray(der(n, xr), dtype=float), r_) <= TOL * max(rs_, sup(r_)) + 1e-10 * fs_ * 2 / (hi - lo)
+                        return np.full(np.shape(xf), np.nan) if not ok else None
+                    der_check(name, val, der, n, xv, xf, lo, hi, desc, f32=(lab == 'complex64-1d'), form='x=' + form_class(lab), canonical=canonical)
+        for lab, kind, xv, xf in coord_forms(lo, hi, seq=True):
+            if kind in 'ib' and (name + '_der_seq') not in SEQ_INT_COORDS:
+                ctx.skip('*_der_seq with integer / bool coordinates truncates into the coordinate dtype today (class E table): excluded')
+                continue
+            if kind == 'b':
+                continue
+            if xv.ndim == 2 and not seq2d:
+                continue
+            for ns in ([0, 1, 2, 3], [1], [2, 5, 8], [0]) + CTX.pick((), ([0, 1, 2, 3, 4, 5, 6, 7], [3, 4], [2], [1, 9, 12], [0, 2])):
+                desc = {'fn': name + '_der_seq', 'ns': ns, 'params': pv, 'x': lab, 'class': f'{name}_der_seq:x-as-{lab}'}
+                ctx.case(desc)
+                with guard(name + '_der_seq', desc, lenlabel='seq'):
+                    f32 = lab == 'complex64-1d'
+                    der_seq_check(name, val, dseq, ns, ns, xv, xf, lo, hi, desc, f32=f32, form='x=' + form_class(lab),
+                                  canonical=(lambda ns=ns, xv=xv: np.array([np.asarray(der(n, xv)) for n in ns])))
+    # zernike_nm_der with an integer-typed radius (accepted for n > |m|; the n == |m| branch raises today: out of domain)
+    for lab, r, t, rf in (('int64', np.array([0, 1, 1, 0]), np.array([0.5, 1.75, 3.0, 5.5]), None), ('int32', np.array([1, 0, 1], dtype=np.int32), np.array([0.25, 2.0, 4.0]), None),
+                          ('pyint:1', 1, 0.75, None), ('pyint:0', 0, 2.5, None), ('int64-2d', np.array([[0, 1], [1, 1]]), np.array([[0.5, 1.0], [2.0, 3.5]]), None)):
+        rf = np.asarray(r, dtype=float)
+        tf = np.asarray(t, dtype=float)
+        for n, m in ((3, 1), (3, -1), (4, 0), (2, 0), (5, 3), (4, -2), (6, 2), (5, 1), (7, -1)):
+            for norm in (True, False):
+                desc = {'fn': 'zernike_nm_der', 'n': n, 'm': m, 'norm': norm, 'r': lab, 'class': f'zernike_nm_der:r-as-{lab.split(":")[0]}:{mclass(m)}'}
+                ctx.case(desc)
+                with guard('zernike_nm_der', desc, lenlabel=mclass(m)):
+                    dr, dt = zernike_nm_der(n, m, r, t, norm=norm)
+                    with quiet():
+                        (rr, ur, rs, fs), (rt_, ut, ts, fs2) = zernike_oracle(zernike_nm, n, m, rf, tf, norm)
+                    fl = 'r=integer'
+                    judge('zernike_nm_der.dr', dr, rr, ur, f'C09/zernike_nm_der/dr/{mclass(m)}', 'zernike_nm_der: dZ/dr at an integer-typed radius is not the radial derivative of zernike_nm', desc,
+                          refsup=rs, fsup=fs, dscale=2.0, form=fl, canonical=lambda: zernike_nm_der(n, m, rf, tf, norm=norm)[0])
+                    judge('zernike_nm_der.dt', dt, rt_, ut, f'C09/zernike_nm_der/dt/{mclass(m)}', 'zernike_nm_der: dZ/dt at an integer-typed radius is not the azimuthal derivative of zernike_nm', desc,
+                          refsup=ts, fsup=fs2, dscale=1.0, form=fl, canonical=lambda: zernike_nm_der(n, m, rf, tf, norm=norm)[1])
+    # conic sag derivatives at integer-typed heights
+    for lab, rho in (('int64', np.array([1, 2, 5, 9])), ('int32', np.array([1, 3, 7], dtype=np.int32)), ('pyint', 4)):
+        rf = np.asarray(rho, dtype=float)
+        for c, k in ((1 / 40.0, 0.0), (-1 / 75.0, -0.6), (0.011, 0.5), (1 / 40.0, -1.0)):
+            desc = {'fn': 'surfaces', 'c': c, 'k': k, 'x': lab, 'class': f'conic-sag-der:x-as-{lab}:{kclass(k)}'}
+            ctx.case(desc)
+            if not conic_domain_ok(c, k, rf * rf):
+                ctx.skip('sqrt-branch-point-too-close')
+                continue
+            with guard('surfaces', desc, lenlabel=kclass(k)):
+                judge('surfaces.sag_der', S.sphere_sag_der(c, rho), D.complex_step(lambda z: S.sphere_sag(c, z * z), rf), 0.0, 'C09/sphere_sag_der', 'sphere_sag_der is not d/drho of sphere_sag', desc,
+                      fsup=sup(S.sphere_sag(c, rf * rf)), dscale=1 / 12.0, form='rho=integer', canonical=lambda: S.sphere_sag_der(c, rf))
+                judge('surfaces.sag_der', S.conic_sag_der(c, k, rho), D.complex_step(lambda z: S.conic_sag(c, k, z * z), rf), 0.0, f'C09/conic_sag_der/{kclass(k)}', 'conic_sag_der is not d/drho of conic_sag',
+                      desc, fsup=sup(S.conic_sag(c, k, rf * rf)), dscale=1 / 12.0, form='rho=integer', canonical=lambda: S.conic_sag_der(c, k, rf))
+                judge('der_direction_cosine_spheroid', S.der_direction_cosine_spheroid(c, k, rho), D.complex_step(lambda z: 1 / S.phi_spheroid(c, k, z * z), rf), 0.0,
+                      f'C09/der_direction_cosine_spheroid/{kclass(k)}', 'der_direction_cosine_spheroid is not d/drho of 1/phi_spheroid', desc, fsup=1.0, dscale=1 / 12.0,
+                      form='rho=integer', canonical=lambda: S.der_direction_cosine_spheroid(c, k, rf))
+
+
+def order_form_units(ctx):
+    """Class E, forms of the order arguments: n of every *_der as each ORDER_FORMS element type; order lists of *_der_seq as lists of those, unsigned
+    ndarrays, dict key views, one-shot generators where accepted; (n, m) of zernike_nm_der(_seq) as numpy integers (unsigned for n only); j of the
+    Clenshaw derivative routines as numpy integers, omitted vs j=1 explicit; norm omitted vs explicit, also after the other explicit value."""
+    from prysm.polynomials import zernike_nm, zernike_nm_der, zernike_nm_der_seq, jacobi_sum_clenshaw_der
+    from prysm.polynomials.qpoly import clenshaw_qbfs_der, clenshaw_q2d_der
+    for name, plist, make, lo, hi, seq2d in families():
+        pv = fixed_params(name, plist, 1)
+        val, der, dseq = make(pv)
+        rng = case_rng('order-forms', name)
+        x = lo + (hi - lo) * (0.03 + 0.94 * rng.random(4))
+        for lab, mk in ORDER_FORMS:
+            for n in (0, 1, 2, 5, 19):
+                desc = {'fn': name + '_der', 'n': n, 'n_as': lab, 'params': pv, 'class': f'{name}_der:n-as-{lab}'}
+                ctx.case(desc)
+                with guard(name + '_der', desc, lenlabel='n=0' if n == 0 else 'n>=1'):
+                    der_check(name, val, der, mk(n), x, x, lo, hi, desc, form='n=' + lab, canonical=lambda n=n: der(n, x))
+            for ns in ([0, 1, 2, 3], [2, 5, 19], [1]):
+                desc = {'fn': name + '_der_seq', 'ns': ns, 'orders_as': 'list-of-' + lab, 'params': pv, 'class': f'{name}_der_seq:orders-as-list-of-{lab}'}
+                ctx.case(desc)
+                with guard(name + '_der_seq', desc, lenlabel='seq'):
+                    der_seq_check(name, val, dseq, ns, [mk(n) for n in ns], x, x, lo, hi, desc, form='orders=list-of-' + lab, canonical=lambda ns=ns: dseq(ns, x))
+        for ns in ([0, 1, 2, 3], [2, 5, 19], [1]):
+            for lab, mk in more_order_containers(ns, name + '_der_seq'):
+                desc = {'fn': name + '_der_seq', 'ns': ns, 'orders_as': lab, 'params': pv, 'class': f'{name}_der_seq:orders-as-{lab}'}
+                ctx.case(desc)
+                with guard(name + '_der_seq', desc, lenlabel='seq'):
+                    der_seq_check(name, val, dseq, ns, mk(), x, x, lo, hi, desc, form='orders=' + lab, canonical=lambda ns=ns: dseq(ns, x), reusable=lab not in ('generator', 'iterator'))
+    rng = case_rng('order-forms', 'zernike')
+    r, t = 0.03 + 0.94 * rng.random(4), rng.uniform(-1, 7, 4)
+    terms = [(4, 2), (5, -3), (6, 0), (3, 1), (3, -1), (2, 2)]
+    for lab, mk, both in [(l, f, True) for l, f in NM_FORMS] + [(l, f, False) for l, f in N_ONLY_FORMS]:
+        for n, m in terms:
+            for norm in (True, False):
+                desc = {'fn': 'zernike_nm_der', 'n': n, 'm': m, 'norm': norm, 'nm_as': lab, 'class': f'zernike_nm_der:n,m-as-{lab}'}
+                ctx.case(desc)
+                with guard('zernike_nm_der', desc, lenlabel=mclass(m)):
+                    dr, dt = zernike_nm_der(mk(n), mk(m) if both else m, r, t, norm=norm)
+                    with quiet():
+                        (rr, ur, rs, fs), (rt_, ut, ts, fs2) = zernike_oracle(zernike_nm, n, m, r, t, norm)
+                    judge('zernike_nm_der.dr', dr, rr, ur, f'C09/zernike_nm_der/dr/{mclass(m)}', 'zernike_nm_der: dZ/dr is not the radial derivative of zernike_nm', desc, refsup=rs, fsup=fs, dscale=2.0,
+                          form=('n,m=' if both else 'n=') + lab, canonical=lambda: zernike_nm_der(n, m, r, t, norm=norm)[0])
+                    judge('zernike_nm_der.dt', dt, rt_, ut, f'C09/zernike_nm_der/dt/{mclass(m)}', 'zernike_nm_der: dZ/dt is not the azimuthal derivative of zernike_nm', desc, refsup=ts, fsup=fs2, dscale=1.0,
+                          form=('n,m=' if both else 'n=') + lab, canonical=lambda: zernike_nm_der(n, m, r, t, norm=norm)[1])
+
+    def zseq(cont, lab, kw, norm):
+        desc = {'fn': 'zernike_nm_der_seq', 'terms_as': lab, 'opt': str(kw) or 'norm-omitted', 'class': f'zernike_nm_der_seq:terms-as-{lab}:{"norm-omitted" if not kw else "norm=" + str(kw["norm"])}'}
+        ctx.case(desc)
+        with guard('zernike_nm_der_seq', desc, lenlabel='seq'):
+            got = np.asarray(zernike_nm_der_seq(cont, r, t, **kw))
+            ctx.observe('zernike_nm_der_seq')
+            if got.shape != (len(terms), 2) + r.shape:
+                ctx.violation('C09/zernike_nm_der_seq/shape', f'zernike_nm_der_seq returned shape {got.shape}', desc)
+                return
+            for row, (n, m) in enumerate(terms):
+                with quiet():
+                    (rr, ur, rs, fs), (rt_, ut, ts, fs2) = zernike_oracle(zernike_nm, n, m, r, t, norm)
+                judge('zernike_nm_der_seq', got[row, 0], rr, ur, f'C09/zernike_nm_der_seq/dr/{mclass(m)}', 'zernike_nm_der_seq: radial row is not d/dr of zernike_nm', desc, refsup=rs, fsup=fs, dscale=2.0,
+                      form='terms=' + lab if lab != 'list-of-tuples' else ('norm=omitted' if not kw else None), canonical=lambda row=row: np.asarray(zernike_nm_der_seq(terms, r, t, norm=norm))[row, 0])
+                judge('zernike_nm_der_seq', got[row, 1], rt_, ut, f'C09/zernike_nm_der_seq/dt/{mclass(m)}', 'zernike_nm_der_seq: azimuthal row is not d/dt of zernike_nm', desc, refsup=ts, fsup=fs2, dscale=1.0,
+                      form='terms=' + lab if lab != 'list-of-tuples' else ('norm=omitted' if not kw else None), canonical=lambda row=row: np.asarray(zernike_nm_der_seq(terms, r, t, norm=norm))[row, 1])
+    for lab, cont in term_containers(terms):
+        zseq(cont, lab, {'norm': False}, False)
+        zseq(cont, lab, {}, True)
+    for lab, mk in NM_FORMS:
+        zseq([(mk(a), mk(b)) for a, b in terms], 'list-of-' + lab, {'norm': True}, True)
+    # omitted vs explicit default after the other explicit value (single-order form)
+    for step, kw in enumerate(({'norm': False}, {}, {'norm': True}, {}, {'norm': False}, {})):
+        norm = kw.get('norm', True)
+        for n, m in ((4, 2), (3, -1), (2, 0)):
+            desc = {'fn': 'zernike_nm_der', 'n': n, 'm': m, 'opt': str(kw) or 'norm-omitted', 'step': step, 'class': f'zernike_nm_der:{"norm-omitted" if not kw else "norm=" + str(norm)}'}
+            ctx.case(desc)
+            with guard('zernike_nm_der', desc, lenlabel=mclass(m)):
+                dr, dt = zernike_nm_der(n, m, r, t, **kw)
+                with quiet():
+                    (rr, ur, rs, fs), (rt_, ut, ts, fs2) = zernike_oracle(zernike_nm, n, m, r, t, norm)
+                judge('zernike_nm_der.dr', dr, rr, ur, f'C09/zernike_nm_der/dr/{mclass(m)}', 'zernike_nm_der: dZ/dr is not the radial derivative of zernike_nm (norm omitted = norm=True)', desc, refsup=rs, fsup=fs,
+                      dscale=2.0, form=None if kw else 'norm=omitted', canonical=lambda: zernike_nm_der(n, m, r, t, norm=True)[0])
+    # j of the Clenshaw derivative routines: numpy integers; omitted vs 1 (the contracts judge every row)
+    rng = case_rng('order-forms', 'clenshaw')
+    x = rng.uniform(-0.9, 0.9, 4)
+    u = 0.03 + 0.94 * rng.random(4)
+    for L in (1, 4, 9):
+        c0 = [float(v) for v in rng.normal(size=L)]
+        for lab, mk in (('int64', np.int64), ('int32', np.int32), ('uint32', np.uint32), ('intp', np.intp)):
+            for j in (1, 2, 3):
+                desc = {'fn': 'clenshaw-der', 'len': L, 'j': j, 'j_as': lab, 'class': f'clenshaw-der:j-as-{lab}'}
+                ctx.case(desc)
+                with guard('jacobi_sum_clenshaw_der', desc, lenlabel=lenclass(L), jlabel=jclass(j, L)):
+                    jacobi_sum_clenshaw_der(c0, -0.25, -0.75, x, j=mk(j))
+                with guard('clenshaw_qbfs_der', desc, lenlabel=lenclass(L), jlabel=jclass(j, L)):
+                    clenshaw_qbfs_der(c0, u * u, j=mk(j))
+                with guard('clenshaw_q2d_der', desc, lenlabel=lenclass(L), jlabel=jclass(j, L)):
+                    clenshaw_q2d_der(c0, mk(1 + j % 3), u * u, j=mk(j))
+        desc = {'fn': 'clenshaw-der', 'len': L, 'j': 'omitted', 'class': 'clenshaw-der:j-omitted'}
+        ctx.case(desc)
+        with guard('jacobi_sum_clenshaw_der', desc, lenlabel=lenclass(L), jlabel=jclass(1, L)):
+            jacobi_sum_clenshaw_der(c0, 0.25, -0.25, x, j=3)
+            keep('jacobi_sum_clenshaw_der', jacobi_sum_clenshaw_der(c0, 0.25, -0.25, x))
+        with guard('clenshaw_qbfs_der', desc, lenlabel=lenclass(L), jlabel=jclass(1, L)):
+            clenshaw_qbfs_der(c0, u * u, j=3)
+            keep('clenshaw_qbfs_der', clenshaw_qbfs_der(c0, u * u))
+        with guard('clenshaw_q2d_der', desc, lenlabel=lenclass(L), jlabel=jclass(1, L)):
+            clenshaw_q2d_der(c0, 2, u * u, j=3)
+            keep('clenshaw_q2d_der', clenshaw_q2d_der(c0, 2, u * u))
+
+
+JAC_LINES = [(-0.25, -0.75), (-0.75, -0.25), (-0.125, -0.875), (-0.5, -0.5), (0.75, -0.75), (-0.75, 0.75), (-0.25, 0.25), (0.25, -0.25)]
+
+
+def param_form_units(ctx):
+    """Class E, forms of the shape parameters of jacobi_der(_seq), laguerre_der(_seq) and jacobi_sum_clenshaw_der: python float, numpy float64, numpy
+    float32 (single-precision class), python int / numpy int64 for integer values; the standing parameter lines alpha + beta = -1 and = 0 with
+    alpha != beta (the n = 0 special case of the recurrence coefficients) for the Clenshaw derivative sums; the coordinate of the Clenshaw
+    routines as python float / numpy float64 scalar / 0-d array."""
+    from prysm import polynomials as p
+    from prysm.polynomials.qpoly import clenshaw_qbfs_der, clenshaw_q2d_der, compute_z_zprime_Qbfs, compute_z_zprime_Qcon
+    rng = case_rng('param-forms')
+    x = np.sort(rng.uniform(-0.95, 0.95, 4))
+    xl = 0.2 + 7.5 * rng.random(4)
+    for al, be in JAC_LINES + [(1.5, 0.5)]:
+        for fl, mk, exact in PARAM_FORMS:
+            a_, b_ = mk(al), mk(be)
+            for n in (0, 1, 2, 3, 7):
+                desc = {'fn': 'jacobi_der', 'n': n, 'params': (al, be), 'params_as': fl, 'class': f'jacobi_der:params-as-{fl}'}
+                ctx.case(desc)
+                with guard('jacobi_der', desc, lenlabel='n=0' if n == 0 else 'n>=1'):
+                    der_check('jacobi', lambda k, xx: p.jacobi(k, al, be, xx), lambda k, xx: p.jacobi_der(k, a_, b_, xx), n, x, x, -1.0, 1.0, desc, f32=not exact,
+                              form='alpha,beta=' + fl if fl != 'pyfloat' else None, canonical=lambda n=n: p.jacobi_der(n, al, be, x))
+            desc = {'fn': 'jacobi_der_seq', 'ns': [0, 1, 2, 3, 7], 'params': (al, be), 'params_as': fl, 'class': f'jacobi_der_seq:params-as-{fl}'}
+            ctx.case(desc)
+            with guard('jacobi_der_seq', desc, lenlabel='seq'):
+                der_seq_check('jacobi', lambda k, xx: p.jacobi(k, al, be, xx), lambda ns, xx: p.jacobi_der_seq(ns, a_, b_, xx), [0, 1, 2, 3, 7], [0, 1, 2, 3, 7], x, x, -1.0, 1.0, desc,
+                              f32=not exact, form='alpha,beta=' + fl if fl != 'pyfloat' else None, canonical=lambda: p.jacobi_der_seq([0, 1, 2, 3, 7], al, be, x))
+            for L in (1, 2, 3, 6):
+                c0 = [float(v) for v in rng.normal(size=L)]
+                for j in (1, 2):
+                    desc = {'fn': 'jacobi_sum_clenshaw_der', 'len': L, 'j': j, 'params': (al, be), 'params_as': fl, 'class': f'jacobi_sum_clenshaw_der:{"a+b=-1" if al + be == -1 else "a+b=0" if al + be == 0 else "general"}:params-as-{fl}'}
+                    ctx.case(desc)
+                    with guard('jacobi_sum_clenshaw_der', desc, lenlabel=lenclass(L), jlabel=jclass(j, L)):
+                        p.jacobi_sum_clenshaw_der(c0 if L % 2 else np.array(c0), a_, b_, x if exact else x.astype(np.float32), j=j)
+    for al, be in ((0, 4), (1, 0), (2, 1)):
+        for fl, mk, exact in INT_PARAM_FORMS:
+            for n in (0, 1, 2, 5):
+                desc = {'fn': 'jacobi_der', 'n': n, 'params': (al, be), 'params_as': fl, 'class': f'jacobi_der:params-as-{fl}'}
+                ctx.case(desc)
+                with guard('jacobi_der', desc, lenlabel='n=0' if n == 0 else 'n>=1'):
+                    der_check('jacobi', lambda k, xx: p.jacobi(k, float(al), float(be), xx), lambda k, xx: p.jacobi_der(k, mk(al), mk(be), xx), n, x, x, -1.0, 1.0, desc,
+                              form='alpha,beta=' + fl, canonical=lambda n=n: p.jacobi_der(n, float(al), float(be), x))
+    for al in (0.5, -0.5, 1.5, 2):
+        forms = (PARAM_FORMS if al != 2 else INT_PARAM_FORMS)
+        for fl, mk, exact in forms:
+            for n in (0, 1, 2, 3, 7):
+                desc = {'fn': 'laguerre_der', 'n': n, 'params': al, 'params_as': fl, 'class': f'laguerre_der:params-as-{fl}'}
+                ctx.case(desc)
+                with guard('laguerre_der', desc, lenlabel='n=0' if n == 0 else 'n>=1'):
+                    der_check('laguerre', lambda k, xx: p.laguerre(k, float(al), xx), lambda k, xx: p.laguerre_der(k, mk(al), xx), n, xl, xl, 0.0, 8.0, desc, f32=not exact,
+                              form='alpha=' + fl if fl != 'pyfloat' else None, canonical=lambda n=n: p.laguerre_der(n, float(al), xl))
+            desc = {'fn': 'laguerre_der_seq', 'ns': [0, 1, 2, 7], 'params': al, 'params_as': fl, 'class': f'laguerre_der_seq:params-as-{fl}'}
+            ctx.case(desc)
+            with guard('laguerre_der_seq', desc, lenlabel='seq'):
+                der_seq_check('laguerre', lambda k, xx: p.laguerre(k, float(al), xx), lambda ns, xx: p.laguerre_der_seq(ns, mk(al), xx), [0, 1, 2, 7], [0, 1, 2, 7], xl, xl, 0.0, 8.0, desc,
+                              f32=not exact, form='alpha=' + fl if fl != 'pyfloat' else None, canonical=lambda: p.laguerre_der_seq([0, 1, 2, 7], float(al), xl))
+    # scalar coordinates of the Clenshaw derivative routines and evaluators (the contracts judge the rows; the slope against the explicit sum)
+    for xlab, u in (('pyfloat', 0.40625), ('npfloat64', np.float64(0.71875)), ('0d', np.array(0.21875)), ('pyint:1', 1), ('pyint:0', 0)):
+        for L in (1, 4, 9):
+            c0 = [float(v) for v in rng.normal(size=L)]
+            desc = {'fn': 'clenshaw-der', 'len': L, 'x_as': xlab, 'class': f'clenshaw-der:x-as-{xlab.split(":")[0]}'}
+            ctx.case(desc)
+            with guard('jacobi_sum_clenshaw_der', desc, lenlabel=lenclass(L), jlabel=jclass(2, L)):
+                p.jacobi_sum_clenshaw_der(c0, -0.25, -0.75, 2 * u - 1, j=2)
+            with guard('clenshaw_qbfs_der', desc, lenlabel=lenclass(L), jlabel=jclass(2, L)):
+                clenshaw_qbfs_der(c0, u * u, j=2)
+            with guard('clenshaw_q2d_der', desc, lenlabel=lenclass(L), jlabel=jclass(1, L)):
+                clenshaw_q2d_der(c0, 2, u * u, j=1)
+            if xlab.startswith('pyint'):
+                continue        # the sag-and-slope evaluators are wrong for a python int coordinate today (class E table): out of domain
+            for which, fn in (('Qbfs', compute_z_zprime_Qbfs), ('Qcon', compute_z_zprime_Qcon)):
+                with guard(f'compute_z_zprime_{which}', desc, lenlabel=lenclass(L), jlabel='j>=len' if L == 1 else 'j=1'):
+                    z, zp = fn(c0, u, u * u)
+                    ref, unc, refsup, fsup = explicit_slope(which, c0, np.asarray(float(u)))
+                    judge(f'compute_z_zprime_{which}.slope', np.asarray(zp), ref, unc, f'C09/compute_z_zprime_{which}/slope/{lenclass(L)}', f'compute_z_zprime_{which}: the slope at a scalar coordinate is not d/du of the explicit sum',
+                          desc, refsup=refsup, fsup=fsup, dscale=2.0, form='u=' + xlab, canonical=lambda: fn(c0, np.array([float(u)]), np.array([float(u) ** 2]))[1][0])
+
+
+def very_high_units(ctx, part, nparts):
+    """Class D in the quick tier too: derivative routines at orders 171, 172, 200, 256, 400 (single and sequence forms), per family up to its numerically
+    meaningful limit; the spectral oracle carries its own uncertainty (a case it cannot resolve 100x below the tolerance is excluded and counted)."""
+    i = -1
+    for name, plist, make, lo, hi, seq2d in families():
+        for pi, pv in enumerate(plist[:2]):
+            i += 1
+            if i % nparts != part or pv == 'rand':
+                continue
+            val, der, dseq = make(pv)
+            rng = case_rng('very-high', name, pi)
+            x = lo + (hi - lo) * (0.05 + 0.9 * rng.random(3))
+            tops = [n for n in high_orders(name, not ctx.quick) if not (name.startswith('hermite') and n > 100)]
+            if name.startswith('hermite'):
+                tops = [100]         # values ~1e94 at n = 100: the interpolation oracle stays exact in relative terms; beyond, nothing new is exercised
+            for n in tops:
+                desc = {'fn': name + '_der', 'n': n, 'params': pv, 'class': f'{name}_der:very-high-order'}
+                ctx.case(desc)
+                ctx.observe('classD.very-high-orders')
+                with guard(name + '_der', desc, lenlabel='n>=1'):
+                    der_check(name, val, der, n, x, x, lo, hi, desc, keyname='orders>=171' if n >= 171 else None)
+                ns = [1, n - 1, n]
+                desc = {'fn': name + '_der_seq', 'ns': ns, 'params': pv, 'class': f'{name}_der_seq:very-high-order'}
+                ctx.case(desc)
+                with guard(name + '_der_seq', desc, lenlabel='seq'):
+                    der_seq_check(name, val, dseq, ns, ns, x, x, lo, hi, desc, keyname='orders>=171' if n >= 171 else None)
+
+
+def foreign_units(ctx):
+    """Class F: the other consumers of the shared recurrence tables (value / sequence routines of every family, the fast sums, the change-of-basis
+    helpers, the fit; precision 32, numpy-typed orders, in-place-prone paths) run first, unjudged; then every derivative routine is judged as usual."""
+    from prysm import polynomials as P
+    from prysm.polynomials import zernike_nm, zernike_nm_der, jacobi_sum_clenshaw_der
+    from prysm.polynomials.qpoly import clenshaw_qbfs_der, clenshaw_q2d_der, compute_z_zprime_Qbfs, compute_z_zprime_Qcon, compute_z_zprime_Q2d
+    rng = case_rng('foreign')
+    u = np.array([0.09375, 0.40625, 0.65625, 0.90625])
+    t = np.array([0.5, 1.75, 3.0, 5.5])
+    for rep, n in enumerate((1, 2, 7, 19, 41)):
+        ctx.event('foreign-traffic-raised', foreign_traffic(P, rep))
+        ctx.observe('classF.foreign-traffic')
+        for name, plist, make, lo, hi, seq2d in families():
+            pv = fixed_params(name, plist, rep)
+            val, der, dseq = make(pv)
+            x = lo + (hi - lo) * np.array([0.09375, 0.40625, 0.65625, 0.90625])
+            nn = min(n, 40) if name.startswith(('hermite', 'laguerre')) else n
+            desc = {'fn': name + '_der', 'n': nn, 'params': pv, 'class': f'{name}_der:after-foreign-traffic'}
+            ctx.case(desc)
+            with guard(name + '_der', desc, lenlabel='n>=1'):
+                der_check(name, val, der, nn, x, x, lo, hi, desc)
+            with guard(name + '_der_seq', desc, lenlabel='seq'):
+                der_seq_check(name, val, dseq, [0, 1, nn] if nn > 1 else [0, 1], [0, 1, nn] if nn > 1 else [0, 1], x, x, lo, hi, desc)
+        for nz, m in ((2 * n + 1, 1), (2 * n + 4, -4), (2 * n, 0)):
+            desc = {'fn': 'zernike_nm_der', 'n': nz, 'm': m, 'class': 'zernike_nm_der:after-foreign-traffic'}
+            ctx.case(desc)
+            with guard('zernike_nm_der', desc, lenlabel=mclass(m)):
+                dr, dt = zernike_nm_der(nz, m, u, t, norm=bool(rep % 2))
+                with quiet():
+                    (rr, ur, rs, fs), (rt_, ut, ts, fs2) = zernike_oracle(zernike_nm, nz, m, u, t, bool(rep % 2))
+                judge('zernike_nm_der.dr', dr, rr, ur, f'C09/zernike_nm_der/dr/{mclass(m)}', 'zernike_nm_der: dZ/dr is not the radial derivative of zernike_nm', desc, refsup=rs, fsup=fs, dscale=2.0)
+                judge('zernike_nm_der.dt', dt, rt_, ut, f'C09/zernike_nm_der/dt/{mclass(m)}', 'zernike_nm_der: dZ/dt is not the azimuthal derivative of zernike_nm', desc, refsup=ts, fsup=fs2, dscale=1.0)
+        L = n + 1
+        c = [float(v) for v in rng.normal(size=L)]
+        desc = {'fn': 'clenshaw-der', 'len': L, 'class': 'clenshaw-der:after-foreign-traffic'}
+        ctx.case(desc)
+        for j in (1, 2):
+            with guard('jacobi_sum_clenshaw_der', desc, lenlabel=lenclass(L), jlabel=jclass(j, L)):
+                jacobi_sum_clenshaw_der(np.array(c), -0.25, -0.75, 2 * u - 1, j=j)
+                jacobi_sum_clenshaw_der(c, 0, 4, 2 * u - 1, j=j)
+            with guard('clenshaw_qbfs_der', desc, lenlabel=lenclass(L), jlabel=jclass(j, L)):
+                clenshaw_qbfs_der(np.array(c), u * u, j=j)
+            with guard('clenshaw_q2d_der', desc, lenlabel=lenclass(L), jlabel=jclass(j, L)):
+                clenshaw_q2d_der(c, 1 + rep % 4, u * u, j=j)
+        for which, fn in (('Qbfs', compute_z_zprime_Qbfs), ('Qcon', compute_z_zprime_Qcon)):
+            slope_check(f'compute_z_zprime_{which}.slope', f'compute_z_zprime_{which}', lambda U: fn(np.array(c), U, U * U), u, desc, f'C09/compute_z_zprime_{which}/slope/{lenclass(L)}', 2 * L + 4, lenclass(L))
+        if L <= 20:
+            cm0, ams, bms = c, [c[:max(1, L // 2)], c], [c, c[:max(1, L // 3)]]
+            deg, mmax = q2d_degree(cm0, ams, bms)
+            lab = 'list-len1' if L <= 3 else 'regular'
+            polar_check('compute_z_zprime_Q2d', 'compute_z_zprime_Q2d', lambda R, T: compute_z_zprime_Q2d(list(cm0), [list(a) for a in ams], [list(b) for b in bms], R, T),
+                        u, t, 0.0, 1.0, deg + 4, 2 * mmax + 4, desc, f'C09/compute_z_zprime_Q2d/{lab}', lab)
+
+
 def run_hardening(ctx, counter):
     def mine():
         counter[0] += 1
@@ -1585,10 +2012,14 @@ def run_hardening(ctx, counter):
             history_zernike(ctx, v)
         if mine():
             history_clenshaw(ctx, v)
-    for fn in (alias_coefs, alias_x, layout_units, container_units, cfg32_units):
+    for fn in (alias_coefs, alias_x, layout_units, container_units, cfg32_units, coord_form_units, order_form_units, param_form_units, foreign_units):
         if mine():
             fn(ctx)
             check_kept()
+    vp_ = ctx.pick(3, 6)
+    for part in range(vp_):
+        if mine():
+            very_high_units(ctx, part, vp_)
     hp = ctx.pick(2, 4)
     for part in range(hp):
         if mine():
